@@ -1,4 +1,5 @@
 import PoorProofs.Lemmas.Json
+import PoorProofs.Lemmas.JsonAny
 import PoorProofs.Props.C14
 /-
 The JSON codec at the byte level, as the three call sites use it:
@@ -43,5 +44,19 @@ example : JOk (.obj [([0x6B], .arr [.int (-12), .str [0x22, 0xE9, 0x1F600, 0xD80
   · decide
   · intro c hc; simp at hc; omega
   · simp [isHigh, isLow]
+
+end Poor.Props.JsonCodec
+
+namespace Poor.Props.JsonCodec
+open Poor Poor.Json Poor.Headers
+
+/-- **every spelling of a value is read back to it**: for every JSON text `s` of `v` (`Txt v s`: any white space
+    between the tokens, strings written with raw characters, short escapes or `\uXXXX` of either case, surrogate
+    pairs, repeated keys) surrounded by white space, the UTF-8 bytes parse to `v` -/
+theorem loadBytes_any_spelling {v : J} {s : Str} (h : Txt v s) (w1 w2 : Str) (h1 : AllWs w1) (h2 : AllWs w2) :
+    loadBytes (utf8enc (w1 ++ (s ++ w2))) = some v := by
+  unfold loadBytes
+  rw [Poor.Props.C14.utf8dec_utf8enc]
+  exact loads_txt h w1 w2 h1 h2
 
 end Poor.Props.JsonCodec
